@@ -118,7 +118,8 @@ theorem comments_in_content (t : Bytes) (p : Pos) (body rest : Bytes) (f : Nat)
    OPEN: (see also the OPEN block there) the general form `parse (pre ++ "<!--body-->" ++ post) ≈ parse (pre ++ post)` for
    ARBITRARY texts pre/post (ill-formed ones, numeric references, …) — it needs the translation invariance of the whole
    parser.  For arbitrary texts what is proved is the same-text form above (`comments_are_whitespace`,
-   `comments_between_tokens`, `comments_in_content`).  Note the code also accepts a comment in places XML does not
+   `comments_between_tokens`, `comments_in_content`); since round 7 `skipSpace` and `readToken`, which these theorems are about, are
+   proved equal to the translation of the current C++ bodies (PropsGen.lean).  Note the code also accepts a comment in places XML does not
    (`<a <!-- c --> x='1'/>`); the theorems state acceptance, not XML conformance. -/
 
 /-- Processing instructions before the root element: in front of `<?body?>` — ANY body that does not
@@ -253,7 +254,8 @@ example : (Elem.mk [97] 0 0 [([120, 45, 121], [108, 49, 10, 108, 50, 34]), ([98]
    histories of copy assignments, clears, text assignments and writes through the mutable `toElement()` down any path
    followed by any edit; values of any depth and sharing), `copy_then_any_history`, `assign_copies_value`,
    `release_keeps_values`, `reach_inv`.
-   OPEN: (there) `refines` — the functional effect of an edit on the target variable itself; `release` fuel sufficiency.
+   OPEN: (there) `refines` — the functional effect of an edit (`mut`) on the target variable itself (`release_fuel_suffices`,
+   `clear_value`, `setStr_target_value`, `assign_copies_value` are proved).
    Reference-count exactness is property C09 (area Rc). -/
 
 end Nstd.Xml
